@@ -56,15 +56,20 @@ def thetaStep (e : ESt) (qn : Nat) : Nat × ESt :=
   (x, { e with s := e.s.pop.2.emit (.encode (if x ≤ x0 then 3 * x else (x - 1 - x0) + (x0 + 1) * 3)
                                            (if x ≤ x0 then 3 * (x + 1) else (x - x0) + (x0 + 1) * 3) (3 * (x0 + 1) + x0)) })
 
-/-- Triangular PDF (bands.c:812-823): `fs = itheta <= qn>>1 ? itheta+1 : qn+1-itheta`,
-    `fl = itheta <= qn>>1 ? itheta*(itheta+1)>>1 : ft - ((qn+1-itheta)*(qn+2-itheta)>>1)`. -/
+/-- Triangular PDF (bands.c:812-823): `ft = ((qn>>1)+1)^2`,
+    `fl = itheta <= qn>>1 ? itheta*(itheta+1)>>1 : ft - ((qn+1-itheta)*(qn+2-itheta)>>1)`,
+    `fs = itheta <= qn>>1 ? itheta+1 : qn+1-itheta`. -/
+def triFt (qn : Nat) : Nat := (qn / 2 + 1) * (qn / 2 + 1)
+
+def triFl (qn x : Nat) : Nat :=
+  if x ≤ qn / 2 then x * (x + 1) / 2 else (qn / 2 + 1) * (qn / 2 + 1) - (qn + 1 - x) * (qn + 2 - x) / 2
+
+def triFs (qn x : Nat) : Nat := if x ≤ qn / 2 then x + 1 else qn + 1 - x
+
 def thetaTri (e : ESt) (qn : Nat) : Nat × ESt :=
-  let x := e.s.pop.1.toNat
-  let h := qn / 2
-  let ft := (h + 1) * (h + 1)
-  let fl := if x ≤ h then x * (x + 1) / 2 else ft - (qn + 1 - x) * (qn + 2 - x) / 2
-  let fs := if x ≤ h then x + 1 else qn + 1 - x
-  (x, { e with s := e.s.pop.2.emit (.encode fl (fl + fs) ft) })
+  (e.s.pop.1.toNat,
+   { e with s := e.s.pop.2.emit (.encode (triFl qn e.s.pop.1.toNat) (triFl qn e.s.pop.1.toNat + triFs qn e.s.pop.1.toNat)
+                                        (triFt qn)) })
 
 /-- The symbol writes of `compute_theta` (bands.c:766-878): the scaled `itheta`. -/
 def thetaWrite (stereo : Bool) (N : Nat) (b : Int) (B0 qn : Nat) (e : ESt) : Nat × ESt :=
